@@ -30,9 +30,9 @@ from ..tlc import MachineryError
 LEVEL = "model_checking"
 AREA = "locals"
 BUGS = ("setattr", "delattr", "release", "push", "pop", "release_stack", "proxy_early", "spawn_fresh",
-        "release_all", "falsy_unbound", "iop_rebind", "mgr_iter", "cleanup_first", "mw_forget", "mw_counter", "cv_lookup")
+        "release_all", "falsy_unbound", "iop_rebind", "mgr_iter", "cleanup_first", "mw_forget", "mw_counter", "cv_lookup", "set_skip_equal")
 BUGS_QUICK = ("setattr", "pop", "release", "proxy_early", "falsy_unbound", "iop_rebind", "mgr_iter", "mw_counter",
-              "cv_lookup")
+              "cv_lookup", "set_skip_equal")
 MUTATORS = {"set", "del", "release", "push", "pop", "release_stack", "cleanup", "proxy_mutate", "proxy_pop",
             "proxy_clear", "proxy_iadd", "proxy_isub", "proxy_ior", "proxy_imul", "mw", "release_dunder",
             "release_stack_dunder", "pop_all", "mw_enter", "mw_close", "cv_set"}
@@ -142,6 +142,47 @@ def export_tours(ctx: Ctx, cfg, recs, rng, maxlen):
     return [(p, lts.init_made) for p in tours]
 
 
+# pairs of universe objects that compare equal but are different objects (spec/locals/Locals.tla)
+EQUAL_PAIRS = [(7, 13), (8, 14), (15, 16), (17, 18), (19, 20), (20, 21), (19, 21), (22, 23)]
+# how the child changes the object it has just bound, through the proxy (by kind of object)
+EQUAL_MUTATE = {7: ("proxy_iadd", 5), 13: ("proxy_iadd", 5), 15: ("proxy_ior", 4), 16: ("proxy_ior", 4),
+                17: ("proxy_mutate", 1), 18: ("proxy_mutate", 1), 8: ("proxy_clear", 0), 14: ("proxy_clear", 0)}
+
+
+def equal_rebind_jobs():
+    """Deterministic histories for "equal is not identical": the parent binds a, children are
+    created, a child re-binds an equal but distinct b (by attribute assignment, inside a middleware
+    request's app, on the stack), changes it through the proxy and reads its identity; parent and
+    sibling read; then the identical / the inherited / a different object are bound in turn.  Every
+    pair of equal objects in both directions x every realisation (constructor variants rotate)."""
+    m = loc.mkop
+    jobs = []
+    pairs = EQUAL_PAIRS + [(b, a) for a, b in EQUAL_PAIRS]
+    for i, (a, b) in enumerate(pairs):
+        reads = lambda c: [m(c, "get", n="x"), m(c, "proxy_read", k="x"), m(c, "top"), m(c, "proxy_read", k=loc.TOP)]
+        ops = [m(1, "nop"), m(1, "set", n="x", b=a), m(1, "push", b=a), m(1, "mkproxy", k="x"),
+               m(1, "mkproxy", k=loc.TOP, v=1), m(1, "mkmgr", k="none"),
+               m(1, "spawn", child=2), m(1, "spawn", child=3),
+               m(2, "set", n="x", b=b)] + reads(2)                      # equal, not identical
+        if b in EQUAL_MUTATE:
+            op, v = EQUAL_MUTATE[b]
+            ops += [m(2, op, k="x", v=v)]
+        ops += reads(1) + reads(3)
+        ops += [m(2, "pop"), m(2, "push", b=b)] + reads(2)              # the same on the stack
+        if b in EQUAL_MUTATE:
+            op, v = EQUAL_MUTATE[b]
+            ops += [m(2, op, k=loc.TOP, v=v)]
+        ops += reads(1)
+        ops += [m(2, "set", n="x", b=b),                                 # identical
+                m(2, "set", n="x", b=a), m(2, "get", n="x"),             # the inherited one again
+                m(2, "set", n="x", b=1), m(2, "get", n="x"),             # a different one
+                m(3, "set", n="x", b=a), m(3, "del", n="x"), m(3, "set", n="x", b=b)] + reads(3)
+        # ... and when the writer is the app of a middleware request (manager manages nothing)
+        ops += [m(1, "spawn", child=4), m(4, "mw", n="x", b=b, v=1, k="make")] + reads(4) + reads(1)
+        jobs += _three_ways(ops, [], loc.CTORS[i % len(loc.CTORS)])
+    return jobs
+
+
 def refute_bugs(ctx: Ctx, bugs):
     """Non-vacuity of the TLC check: each broken variant of the heap model must violate the contract."""
     def one(b):
@@ -235,6 +276,8 @@ def run(ctx: Ctx):
         "left open (both outcomes accepted): whether locals are released when the app raises inside the middleware, and a "
         "LocalManager(...) call that raises (LocalManager(bare LocalStack) raises TypeError on this tree although the annotation "
         "lists it) -- then the previous manager stays in use; results of the middleware call itself are not judged",
+        "bindings are by identity: objects that compare equal (two [] / {} / set(), objects with __eq__, True / 1 / 1.0, equal "
+        "strings built at run time) are different objects; binding one where an equal one is bound (or inherited) must bind it",
         "a proxy bound to a falsy object is bound: bool(proxy) = bool(object), unbound-ness is judged by RuntimeError / "
         "_get_current_object / repr, never by truthiness; None itself is not stored (LocalStack uses it for 'empty')",
         "iteration order of Local.__iter__ is not specified and not judged (items compared as a set)",
@@ -246,13 +289,14 @@ def run(ctx: Ctx):
     # 1. model checking -------------------------------------------------------------------------
     # (independent TLC runs, started side by side: most of their wall time is JVM start-up)
     w = max(2, ctx.workers // 2)
-    with cf.ThreadPoolExecutor(max_workers=8) as ex:
+    with cf.ThreadPoolExecutor(max_workers=10) as ex:
         futs = [ex.submit(ctx.model_check, AREA, "MCLocals", "MCQ_laws", timeout=600, workers=w),
                 ex.submit(ctx.model_check, AREA, "LocalsImpl", "MCQ_impl", timeout=900, workers=w),
                 ex.submit(ctx.model_check, AREA, "LocalsImpl", "MCQ_iop", timeout=900, workers=w),
                 ex.submit(ctx.model_check, AREA, "LocalsImpl", "MCQ_rel", timeout=900, workers=w),
                 ex.submit(ctx.model_check, AREA, "LocalsImpl", "MCQ_ovl", timeout=900, workers=w),
                 ex.submit(ctx.model_check, AREA, "LocalsImpl", "MCQ_kinds", timeout=900, workers=w),
+                ex.submit(ctx.model_check, AREA, "LocalsImpl", "MCQ_eq", timeout=900, workers=w),
                 ex.submit(refute_bugs, ctx, BUGS_QUICK if q else BUGS),
                 ex.submit(judge_selftest, ctx)]
         for f in futs:
@@ -265,17 +309,19 @@ def run(ctx: Ctx):
         ctx.model_check(AREA, "LocalsImpl", "MCT_iop", timeout=3000)
         ctx.model_check(AREA, "LocalsImpl", "MCT_rel", timeout=3000)
         ctx.model_check(AREA, "LocalsImpl", "MCT_ovl", timeout=3000)
+        ctx.model_check(AREA, "LocalsImpl", "MCT_eq", timeout=3000)
     ctx.exhaustive = True
     phases["model_checking"] = round(ctx.elapsed() - t0, 1)
     t0 = ctx.elapsed()
     # 2. spec -> code: tours over the exported transition system ----------------------------------
     jobs = []
-    cfgs = (["MCX_q", "MCX_qm", "MCX_q3", "MCX_qf", "MCX_qi", "MCX_qr", "MCX_qo", "MCX_qk"] if q
-            else ["MCX_q", "MCX_qm", "MCX_q3", "MCX_qf", "MCX_qi", "MCX_qr", "MCX_qo", "MCX_qk", "MCX_t", "MCX_t3",
-                  "MCX_tf", "MCX_ti", "MCX_tr", "MCX_to"])
+    cfgs = (["MCX_q", "MCX_qm", "MCX_q3", "MCX_qf", "MCX_qi", "MCX_qr", "MCX_qo", "MCX_qk", "MCX_qe"] if q
+            else ["MCX_q", "MCX_qm", "MCX_q3", "MCX_qf", "MCX_qi", "MCX_qr", "MCX_qo", "MCX_qk", "MCX_qe", "MCX_t", "MCX_t3",
+                  "MCX_tf", "MCX_ti", "MCX_tr", "MCX_to", "MCX_te"])
     with cf.ThreadPoolExecutor(max_workers=8) as ex:
         exported = list(ex.map(lambda c: ctx.export(AREA, "MCLocals", c, count_states=False, timeout=1200), cfgs))
     jobs += fresh_read_jobs()
+    jobs += equal_rebind_jobs()
     ntour = 0
     for cfg, recs in zip(cfgs, exported):
         for p, made in export_tours(ctx, cfg, recs, rng, maxlen=30 if q else 100):
